@@ -131,6 +131,21 @@ def check(pid, tier, seed):
             for f, v in want.items():
                 if r.get(f) != v and prob is None:
                     prob = "%s (%s): %s = %s, the tree says %s" % (where, k, f, r.get(f), v)
+        for r in recs:
+            if r.get("e") != "Rel" or prob is not None:
+                continue
+            pth = tuple(int(x) for x in r["node"].split("."))
+            k = tree[pth]
+            where = ("./" if r["variant"] else "") + "/".join(NAMES[i] for i in pth)
+            if "exc" in r:
+                prob = "relative path %s: unexpected exception type %s" % (where, r["exc"])
+                continue
+            want = {"exists": True, "file": k != "dir", "dir": k == "dir", "abs": False, "size": total(tree, pth) if k == "dir" else SIZES[k]}
+            if k == "dir":
+                want["nkids"] = sum(1 for q in tree if len(q) == len(pth) + 1 and q[:len(pth)] == pth)
+            for f, v in want.items():
+                if r.get(f) != v and prob is None:
+                    prob = "relative path %s (%s): %s = %s, the tree says %s" % (where, k, f, r.get(f), v)
         fd = next((r for r in recs if r.get("e") == "Fds"), None)
         if fd and fd["f1"] > fd["f0"] and fd["f2"] > fd["f1"] and prob is None:
             prob = "(tree): every round of exists/isFile/isDirectory/size/listChildren over the tree leaves more descriptors open (%d -> %d -> %d): a tree large enough exhausts them and the answers stop agreeing with the file system" % (fd["f0"], fd["f1"], fd["f2"])
